@@ -603,4 +603,48 @@ def SharedEig.fillDiagonal (m : SharedEig α) (i : Nat) (v : V3 α) : SharedEig 
 
 end shared
 
+/-! ### axis convention of the ellipsoid: radius function `_beta` against direction function `_n`
+`_n(φ,θ) = (sinθ cosφ, sinθ sinφ, cosθ)` attaches cos φ to x and sin φ to y; `_beta(a,b,c,φ,θ)` must attach
+the semi-axis a to the SAME factor as x, b to the same factor as y.  The functions below take the sines and
+cosines as arguments (they are atoms for the theorems; exact rational values such as 3/5, 4/5 in the witnesses). -/
+section orientation
+variable {α : Type} [Add α] [Mul α] [One α]
+
+/-- Σᵢ (rᵢ nᵢ)² : the square of the centre-to-surface distance of the ellipsoid with semi-axes r in direction n -/
+def quadForm (r n : V3 α) : α := npow (r 0 * n 0) 2 + npow (r 1 * n 1) 2 + npow (r 2 * n 2) 2
+
+/-- relabelling of the coordinate axes: component i of the result is component p i of v -/
+def permV3 (p : Fin 3 → Fin 3) (v : V3 α) : V3 α := fun i => v (p i)
+
+/-- the exchange x ↔ y -/
+def swap01 : Fin 3 → Fin 3 := fun i => if i = 0 then 1 else if i = 1 then 0 else 2
+
+/-- the six relabellings in the order of Python's `itertools.permutations(range(3))` -/
+def perm6 (k : Nat) : Fin 3 → Fin 3 :=
+  match k with
+  | 0 => fun i => i
+  | 1 => fun i => if i = 0 then 0 else if i = 1 then 2 else 1
+  | 2 => swap01
+  | 3 => fun i => if i = 0 then 1 else if i = 1 then 2 else 0
+  | 4 => fun i => if i = 0 then 2 else if i = 1 then 0 else 1
+  | _ => fun i => if i = 0 then 2 else if i = 1 then 1 else 0
+
+/-- `_n` as a function of (sin φ, cos φ, sin θ, cos θ) -/
+def nSC (sφ cφ sθ cθ : α) : V3 α := fun i => if i = 0 then sθ * cφ else if i = 1 then sθ * sφ else cθ
+
+/-- the radicand of `_beta` as coded, as a function of (sin φ, cos φ, sin θ, cos θ) -/
+def betaSqSC (a b c sφ cφ sθ cθ : α) : α :=
+  (npow (a * cφ) 2 + npow (b * sφ) 2) * npow sθ 2 + npow (c * cθ) 2
+
+/-- the x ↔ y MIRRORED radicand (sin φ attached to a, cos φ to b) — a variant that does not pair with `_n`;
+kept for the negative witness `Props.C16.beta_mirrored_differs` -/
+def betaSqMirrored (a b c sφ cφ sθ cθ : α) : α :=
+  (npow (a * sφ) 2 + npow (b * cφ) 2) * npow sθ 2 + npow (c * cθ) 2
+
+/-- the node list seen after relabelling the axes by p -/
+def permNodes (p : Fin 3 → Fin 3) (nodes : List (QNode α)) : List (QNode α) :=
+  nodes.map fun q => { n := permV3 p q.n, w := q.w }
+
+end orientation
+
 end KawinV.Elastic
